@@ -1,1077 +1,6 @@
-// C12 harness: runs app/bcache on many short traces (sweeper disabled, sweeps issued through the verif hook
-// VerifSweep as ordinary trace steps), brackets every API call with two clock readings, dumps the member map
-// and the deadline index after every call, and writes Coq cases (C12.Check.case). A second part runs caches
-// with the real sentinel ticker (10 ms) and checks Count / liveness after an allowance of ticker intervals.
+// C12 harness: see package vh/bcachetrace (MainC12).
 package main
 
-import (
-	"encoding/json"
-	"fmt"
-	"sort"
-	"strconv"
-	"strings"
-	"sync"
-	"time"
+import "vh/bcachetrace"
 
-	"github.com/songzhibin97/go-baseutils/app/bcache"
-	"github.com/songzhibin97/go-baseutils/base/bcomparator"
-
-	"vh/vhlib"
-)
-
-const (
-	kSet = iota
-	kSetDefault
-	kSetNoExpire
-	kSetIfAbsent
-	kReplace
-	kDelete
-	kGet
-	kGetWithExpire
-	kCount
-	kClear
-	kSweep
-	kExport
-	kRestore
-	kLoad
-)
-
-var kindName = []string{"Set", "SetDefault", "SetNoExpire", "SetIfAbsent", "Replace", "Delete", "Get", "GetWithExpire",
-	"Count", "Clear", "VerifSweep", "Export", "Restore", "Load"}
-
-const nKeys = 4
-const ms = time.Millisecond
-const lo60 = int64(1) << 60
-const hi61 = int64(1) << 61
-const gran = 256 // float64 spacing for 2^60 <= x < 2^61
-
-type synthEnt struct {
-	k, v  int
-	rel   time.Duration // deadline relative to the start of the Restore call; 0 = untimed (when timed == false)
-	timed bool
-}
-
-type planOp struct {
-	kind  int
-	k, v  int
-	ttl   time.Duration
-	pause time.Duration
-	// alignOn: before the call, wait until (a stored deadline + align ns) so that the call's clock bracket
-	// lands on the deadline itself (exercises the undecided windows of the interval checker)
-	alignOn bool
-	align   int64
-	synth   []synthEnt // Restore / Load: synthetic content (nil = latest exported blob, or empty object when none)
-}
-
-type plan struct {
-	profile  string
-	noDefOpt bool // no SetDefaultExpire option (def must be 0)
-	capture  int  // 0 = no-op capture, 1 = SetCapture(nil), 2 = recording capture
-	def      time.Duration
-	ops      []planOp
-}
-
-type ent struct {
-	Value  int
-	Expire int64
-}
-
-type stepRec struct {
-	label  string
-	call   string
-	op     string
-	a, b   int64
-	out    string
-	tw     int64
-	mem    map[int]ent
-	visK   []int
-	visS   []int64
-	window bool // some deadline relevant to the call lies inside its clock bracket (not "decided")
-}
-
-type traceRes struct {
-	t0      int64
-	steps   []stepRec
-	dropped string
-}
-
-// ---------- generation ----------
-
-var ttlAlphabet = []time.Duration{bcache.NoExpire, bcache.DefaultExpire, bcache.DefaultExpire, 40 * ms, 120 * ms, 40 * ms, 120 * ms}
-
-// every TTL kind newIterator distinguishes: NoExpire, DefaultExpire, positive (short, and occasionally huge),
-// other negatives
-func pickTTL(r *vhlib.Rng) time.Duration {
-	switch r.Intn(40) {
-	case 0, 1:
-		return -5 * ms
-	case 2:
-		return -time.Second
-	case 3:
-		return time.Hour
-	case 4:
-		return 8760 * time.Hour // a year: deadline still below 2^61 ns
-	}
-	return ttlAlphabet[r.Intn(len(ttlAlphabet))]
-}
-
-// cache configurations: the default expiry given to SetDefaultExpire. Substantial weight on the non-positive
-// ones (0 = none, NoExpire = -1ns, other negatives): DefaultExpire writes must then store WITHOUT expiry.
-var defAlphabet = []time.Duration{40 * ms, 120 * ms, 40 * ms, 0, 0, bcache.NoExpire, bcache.NoExpire, -5 * ms, -time.Hour}
-var defNonPositive = []time.Duration{0, bcache.NoExpire, -5 * ms, -time.Hour}
-
-func pickTimed(r *vhlib.Rng) time.Duration {
-	if r.Bool() {
-		return 40 * ms
-	}
-	return 120 * ms
-}
-func pickPause(r *vhlib.Rng, heavy bool) time.Duration {
-	n := 6
-	if heavy {
-		n = 2
-	}
-	if r.Intn(n) != 0 {
-		return 0
-	}
-	return []time.Duration{25 * ms, 60 * ms, 150 * ms, 25 * ms, 60 * ms}[r.Intn(5)]
-}
-
-type gen struct {
-	r   *vhlib.Rng
-	val int
-	ops []planOp
-}
-
-func (g *gen) nv() int { g.val++; return g.val - 1 } // the first stored value is the zero value 0
-
-// defaultOps: every write kind with the DefaultExpire TTL kind (Set(k,v,0), SetDefault, SetIfAbsent(k,v,0),
-// Replace(k,v,0)), each followed by a look at the key
-func (g *gen) defaultOps() {
-	k := g.key()
-	for _, kind := range [][]int{{kSet, kSetDefault}, {kSetIfAbsent, kSetDefault}, {kReplace, kReplace}, {kSetIfAbsent, kSet}}[g.r.Intn(4)] {
-		if g.r.Bool() {
-			k = g.key()
-		}
-		if kind == kReplace && g.r.Bool() { // make sure there is something to replace: untimed or timed
-			g.add([]int{kSetNoExpire, kSet}[g.r.Intn(2)], k, pickTimed(g.r), 0)
-		}
-		g.add(kind, k, bcache.DefaultExpire, 0)
-		g.add([]int{kGetWithExpire, kGetWithExpire, kGet, kCount}[g.r.Intn(4)], k, 0, 0)
-	}
-}
-func (g *gen) add(kind, k int, ttl, pause time.Duration) {
-	g.ops = append(g.ops, planOp{kind: kind, k: k, v: g.nv(), ttl: ttl, pause: pause})
-}
-func (g *gen) key() int { return g.r.Intn(nKeys) }
-
-// synthWith: synthetic content with a chosen entry for key fk (fk < 0: none forced)
-func (g *gen) synthWith(fk int, fe synthEnt) []synthEnt {
-	s := g.synth()
-	if fk < 0 {
-		return s
-	}
-	out := []synthEnt{}
-	for _, e := range s {
-		if e.k != fk {
-			out = append(out, e)
-		}
-	}
-	fe.k = fk
-	fe.v = g.nv()
-	return append(out, fe)
-}
-
-func (g *gen) synth() []synthEnt {
-	var s []synthEnt
-	for k := 0; k < nKeys; k++ {
-		switch g.r.Intn(7) {
-		case 6: // deadline inside (or next to) the clock bracket of the load itself
-			s = append(s, synthEnt{k: k, v: g.nv(), rel: time.Duration(g.r.Intn(40000)), timed: true})
-		case 0: // absent
-		case 1:
-			s = append(s, synthEnt{k: k, v: g.nv()})
-		case 2: // long expired
-			s = append(s, synthEnt{k: k, v: g.nv(), rel: -time.Duration(1+g.r.Intn(1000)) * ms, timed: true})
-		case 3:
-			s = append(s, synthEnt{k: k, v: g.nv(), rel: 40 * ms, timed: true})
-		case 4:
-			s = append(s, synthEnt{k: k, v: g.nv(), rel: 120 * ms, timed: true})
-		case 5:
-			s = append(s, synthEnt{k: k, v: g.nv(), rel: time.Duration(5+g.r.Intn(30)) * ms, timed: true})
-		}
-	}
-	if s == nil {
-		s = []synthEnt{}
-	}
-	return s
-}
-
-// one random operation
-func (g *gen) random(heavyPause bool, w []int) {
-	tot := 0
-	for _, x := range w {
-		tot += x
-	}
-	n := g.r.Intn(tot)
-	kind := 0
-	for i, x := range w {
-		if n < x {
-			kind = i
-			break
-		}
-		n -= x
-	}
-	p := pickPause(g.r, heavyPause)
-	op := planOp{kind: kind, k: g.key(), v: g.nv(), ttl: pickTTL(g.r), pause: p}
-	if (kind == kGet || kind == kGetWithExpire || kind == kReplace || kind == kSweep || kind == kCount) && g.r.Chance(1, 6) {
-		op.alignOn = true
-		op.align = int64(g.r.Intn(4001)) - 2000
-		if g.r.Chance(1, 4) {
-			op.align = int64(g.r.Intn(601)) - 300
-		}
-	}
-	if (kind == kRestore || kind == kLoad) && g.r.Intn(3) != 0 {
-		op.synth = g.synth()
-	}
-	g.ops = append(g.ops, op)
-}
-
-// Set SetD SetNE SIA Repl Del Get GetWE Cnt Clr Swp Exp Rst Load
-var wPlain = []int{12, 4, 4, 8, 8, 4, 6, 14, 6, 1, 8, 2, 2, 4}
-var wChurn = []int{10, 3, 3, 6, 6, 12, 4, 10, 6, 5, 6, 2, 2, 3}
-var wEdges = []int{8, 2, 2, 16, 16, 2, 4, 12, 4, 0, 6, 1, 1, 2}
-var wLoad = []int{10, 2, 3, 5, 5, 2, 4, 14, 6, 1, 8, 4, 1, 12}
-
-func makePlan(r *vhlib.Rng, idx int) plan {
-	g := &gen{r: r}
-	pl := plan{def: defAlphabet[r.Intn(len(defAlphabet))], capture: r.Intn(3)}
-	if pl.def == 0 && r.Bool() {
-		pl.noDefOpt = true // constructor default: no SetDefaultExpire option at all
-	}
-	n := r.Range(8, 25)
-	if r.Intn(5) < 2 { // in every profile: DefaultExpire writes of every kind on this configuration
-		g.defaultOps()
-	}
-	switch idx % 7 {
-	case 0:
-		pl.profile = "plain"
-		for len(g.ops) < n {
-			g.random(false, wPlain)
-		}
-	case 1: // D24 shape: timed store, re-store without expiry, wait past the old deadline, sweep, look
-		pl.profile = "restore-without-expiry"
-		if r.Bool() {
-			pl.def = defNonPositive[r.Intn(len(defNonPositive))]
-			pl.noDefOpt = false
-		}
-		for i := r.Intn(3); i > 0; i-- {
-			g.random(false, wPlain)
-		}
-		k := g.key()
-		ttl := pickTimed(r)
-		g.add([]int{kSet, kSet, kSetIfAbsent}[r.Intn(3)], k, ttl, 0)
-		if pl.def > 0 && r.Bool() {
-			g.ops[len(g.ops)-1].kind = kSetDefault
-			ttl = pl.def
-		}
-		for i := r.Intn(3); i > 0; i-- {
-			g.add([]int{kGetWithExpire, kCount, kGet}[r.Intn(3)], g.key(), 0, 0)
-		}
-		switch r.Intn(5) {
-		case 0:
-			g.add(kSetNoExpire, k, 0, 0)
-		case 1:
-			g.add(kSet, k, bcache.NoExpire, 0)
-		case 2:
-			g.add(kReplace, k, bcache.NoExpire, 0)
-		case 3:
-			g.add(kSet, k, -5*ms, 0)
-		case 4:
-			if pl.def <= 0 { // SetDefault / Set(..., DefaultExpire) on a cache without a positive default: no expiry
-				g.add([]int{kSetDefault, kSet, kReplace}[r.Intn(3)], k, bcache.DefaultExpire, 0)
-			} else {
-				g.add(kReplace, k, -5*ms, 0)
-			}
-		}
-		past := 60 * ms
-		if ttl > 40*ms {
-			past = 150 * ms
-		}
-		g.add(kSweep, 0, 0, past)
-		g.add(kGetWithExpire, k, 0, 0)
-		g.add(kCount, 0, 0, 0)
-		for len(g.ops) < n {
-			g.random(false, wPlain)
-		}
-	case 2: // D3 shape: timed stores, wait past the deadlines, sweep, Count / Export / SetIfAbsent
-		pl.profile = "expire-sweep-count"
-		m := r.Range(1, 4)
-		for i := 0; i < m; i++ {
-			g.add([]int{kSet, kSetIfAbsent, kSet}[r.Intn(3)], g.key(), 40*ms, 0)
-		}
-		if r.Bool() {
-			g.add(kSet, g.key(), 120*ms, 0)
-		}
-		if r.Bool() {
-			g.add(kSetNoExpire, g.key(), 0, 0)
-		}
-		g.add(kSweep, 0, 0, 60*ms)
-		g.add(kCount, 0, 0, 0)
-		switch r.Intn(3) {
-		case 0:
-			g.add(kExport, 0, 0, 0)
-		case 1:
-			g.add(kSetIfAbsent, g.key(), pickTTL(r), 0)
-		}
-		for len(g.ops) < n {
-			g.random(true, wPlain)
-		}
-	case 3:
-		pl.profile = "ifabsent-replace-deadlines"
-		if r.Bool() { // SetIfAbsent over an expired, not yet collected entry is blocked; after the lazy delete it succeeds
-			k := g.key()
-			g.add(kSet, k, 40*ms, 0)
-			g.add(kSetIfAbsent, k, pickTTL(r), 60*ms)
-			g.add([]int{kGetWithExpire, kReplace, kSweep}[r.Intn(3)], k, pickTTL(r), 0)
-			g.add(kSetIfAbsent, k, pickTTL(r), 0)
-			g.add(kReplace, k, bcache.DefaultExpire, 0)
-			g.add(kGetWithExpire, k, 0, 0)
-		}
-		if r.Bool() { // Replace with the default TTL kind over an untimed entry; Delete of an absent key; Count
-			k := g.key()
-			g.add(kSetNoExpire, k, 0, 0)
-			g.add(kReplace, k, bcache.DefaultExpire, 0)
-			g.add(kGetWithExpire, k, 0, 0)
-			g.add(kDelete, (k+1)%nKeys, 0, 0)
-			g.add(kDelete, (k+1)%nKeys, 0, 0)
-			g.add(kCount, 0, 0, 0)
-		}
-		for len(g.ops) < n {
-			g.random(true, wEdges)
-		}
-	case 4: // export -> restore -> read everything back
-		pl.profile = "export-restore"
-		m := r.Range(2, 6)
-		for i := 0; i < m; i++ {
-			g.add([]int{kSet, kSet, kSetNoExpire, kSetIfAbsent, kReplace}[r.Intn(5)], g.key(), pickTTL(r), pickPause(r, false))
-		}
-		g.add(kExport, 0, 0, pickPause(r, false))
-		for i := r.Intn(3); i > 0; i-- {
-			g.random(false, wChurn)
-		}
-		op := planOp{kind: kRestore, pause: pickPause(r, true)}
-		if r.Intn(3) == 0 {
-			op.synth = g.synth()
-		}
-		g.ops = append(g.ops, op)
-		for k := 0; k < nKeys; k++ {
-			g.add(kGetWithExpire, k, 0, 0)
-		}
-		g.add(kCount, 0, 0, 0)
-		if r.Bool() {
-			g.add(kSweep, 0, 0, pickPause(r, true))
-			g.add(kCount, 0, 0, 0)
-			g.add(kExport, 0, 0, 0)
-		}
-		for len(g.ops) < n {
-			g.random(false, wPlain)
-		}
-	case 6: // D32 shape: Load onto a cache that already holds entries
-		pl.profile = "load-over-timed"
-		for i := r.Intn(3); i > 0; i-- {
-			g.random(false, wPlain)
-		}
-		k := g.key()
-		load := func(fe synthEnt, pause time.Duration) {
-			g.ops = append(g.ops, planOp{kind: kLoad, pause: pause, synth: g.synthWith(k, fe)})
-		}
-		switch r.Intn(4) {
-		case 0, 1: // an entry WITHOUT expiry loaded over a timed one
-			ttl := pickTimed(r)
-			g.add([]int{kSet, kSet, kSetIfAbsent, kReplace}[r.Intn(4)], k, ttl, 0)
-			if r.Bool() {
-				g.add(kSet, g.key(), pickTTL(r), 0)
-			}
-			load(synthEnt{}, 0)
-			if r.Bool() {
-				g.add(kGetWithExpire, k, 0, 0)
-			}
-			past := 60 * ms
-			if ttl > 40*ms {
-				past = 150 * ms
-			}
-			g.add(kSweep, 0, 0, past)
-			g.add(kGetWithExpire, k, 0, 0)
-			g.add(kCount, 0, 0, 0)
-			g.add(kExport, 0, 0, 0)
-		case 2: // a timed entry loaded over an untimed one
-			g.add(kSetNoExpire, k, 0, 0)
-			load(synthEnt{rel: 40 * ms, timed: true}, 0)
-			g.add(kGetWithExpire, k, 0, 0)
-			g.add(kSweep, 0, 0, 60*ms)
-			g.add(kGetWithExpire, k, 0, 0)
-			g.add(kCount, 0, 0, 0)
-		case 3: // load over an entry that may have expired already
-			g.add(kSet, k, 40*ms, 0)
-			fe := []synthEnt{{}, {rel: 120 * ms, timed: true}, {rel: -50 * ms, timed: true}, {rel: 40 * ms, timed: true}}[r.Intn(4)]
-			load(fe, []time.Duration{25 * ms, 60 * ms}[r.Intn(2)])
-			g.add(kGetWithExpire, k, 0, 0)
-			g.add(kSweep, 0, 0, []time.Duration{25 * ms, 60 * ms, 150 * ms}[r.Intn(3)])
-			g.add(kCount, 0, 0, 0)
-			g.add(kGetWithExpire, k, 0, 0)
-			g.add(kExport, 0, 0, 0)
-		}
-		for len(g.ops) < n {
-			g.random(false, wLoad)
-		}
-	case 5:
-		pl.profile = "delete-clear-churn"
-		for len(g.ops) < n {
-			g.random(false, wChurn)
-		}
-	}
-	// bound the time one trace sleeps
-	var tot time.Duration
-	for i := range g.ops {
-		tot += g.ops[i].pause
-		if tot > 700*ms {
-			g.ops[i].pause = 0
-		}
-	}
-	pl.ops = g.ops
-	return pl
-}
-
-// ---------- execution ----------
-
-func effTTL(def, ttl time.Duration) (time.Duration, bool) {
-	switch ttl {
-	case bcache.NoExpire:
-		return 0, false
-	case bcache.DefaultExpire:
-		if def > 0 {
-			return def, true
-		}
-		return 0, false
-	default:
-		if ttl > 0 {
-			return ttl, true
-		}
-		return 0, false
-	}
-}
-
-func durStr(d time.Duration) string {
-	switch d {
-	case bcache.NoExpire:
-		return "NoExpire"
-	case bcache.DefaultExpire:
-		return "DefaultExpire"
-	}
-	return d.String()
-}
-
-// deadlines are written relative to the first clock reading of the trace (0 stays 0 = untimed)
-func rel(d, t0 int64) int64 {
-	if d == 0 {
-		return 0
-	}
-	return d - t0
-}
-
-func coqEntry(k int, e ent, t0 int64) string {
-	return vhlib.Pair(vhlib.Z(int64(k)), vhlib.Pair(vhlib.Z(int64(e.Value)), vhlib.Z(rel(e.Expire, t0))))
-}
-
-func coqMap(m map[int]ent, t0 int64) string {
-	keys := make([]int, 0, len(m))
-	for k := range m {
-		keys = append(keys, k)
-	}
-	sort.Ints(keys)
-	it := make([]string, len(keys))
-	for i, k := range keys {
-		it[i] = coqEntry(k, m[k], t0)
-	}
-	return vhlib.List(it)
-}
-
-func parseBlob(blob []byte) (map[int]ent, error) {
-	raw := map[string]ent{}
-	if err := json.Unmarshal(blob, &raw); err != nil {
-		return nil, err
-	}
-	res := map[int]ent{}
-	for ks, e := range raw {
-		k, err := strconv.Atoi(ks)
-		if err != nil {
-			return nil, err
-		}
-		res[k] = e
-	}
-	return res, nil
-}
-
-func clamp(x, lo, hi int64) int64 {
-	if x < lo {
-		return lo
-	}
-	if x > hi {
-		return hi
-	}
-	return x
-}
-
-func runTrace(pl plan) (res traceRes) {
-	captured := 0
-	var capt func(int, int)
-	switch pl.capture {
-	case 0:
-		capt = func(int, int) {}
-	case 2:
-		capt = func(int, int) { captured++ }
-	}
-	var c *bcache.BCache[int, int]
-	if pl.noDefOpt {
-		c = bcache.New[int, int](bcomparator.IntComparator(), bcache.SetCapture[int, int](capt))
-	} else {
-		c = bcache.New[int, int](bcomparator.IntComparator(),
-			bcache.SetDefaultExpire[int, int](pl.def), bcache.SetCapture[int, int](capt))
-	}
-	base := time.Now()
-	tBase := base.UnixNano()
-	res.t0 = tBase
-	last := tBase
-	clockOK := func(t time.Time) bool {
-		w := t.UnixNano() - base.UnixNano()
-		m := int64(t.Sub(base)) // monotonic difference
-		d := w - m
-		if d < 0 {
-			d = -d
-		}
-		ok := d <= int64(ms) && t.UnixNano() >= last && t.UnixNano() >= lo60 && t.UnixNano() < hi61
-		last = t.UnixNano()
-		return ok
-	}
-	var blob []byte
-	prevMem := map[int]ent{}
-	var prevVisK []int
-	for _, op := range pl.ops {
-		if op.pause > 0 {
-			time.Sleep(op.pause)
-		}
-		if op.alignOn {
-			var target int64
-			if e, ok := prevMem[op.k]; ok && e.Expire > 0 {
-				target = e.Expire
-			} else {
-				for _, e := range prevMem {
-					if e.Expire > 0 && (target == 0 || e.Expire < target) {
-						target = e.Expire
-					}
-				}
-			}
-			if target != 0 {
-				target += op.align
-				if d := target - time.Now().UnixNano(); d > 0 && d < int64(200*ms) {
-					if d > int64(1500*time.Microsecond) {
-						time.Sleep(time.Duration(d) - 1500*time.Microsecond)
-					}
-					for time.Now().UnixNano() < target {
-					}
-				}
-			}
-		}
-		st := stepRec{label: kindName[op.kind]}
-		k, v := op.k, op.v
-		var t0, t1 time.Time
-		var data map[int]ent
-		hit, okb := false, false
-		var gv int
-		var gd int64
-		var cnt int
-		var exp map[int]ent
-		panicked, pv := vhlib.Recover(func() {
-			switch op.kind {
-			case kSet:
-				st.call = fmt.Sprintf("Set(%d,%d,%s)", k, v, durStr(op.ttl))
-				st.op = fmt.Sprintf("OSet %d %d %s", k, v, vhlib.Z(int64(op.ttl)))
-				t0 = time.Now()
-				c.Set(k, v, op.ttl)
-				t1 = time.Now()
-			case kSetDefault:
-				st.call = fmt.Sprintf("SetDefault(%d,%d)", k, v)
-				st.op = fmt.Sprintf("OSet %d %d %s", k, v, vhlib.Z(int64(pl.def)))
-				t0 = time.Now()
-				c.SetDefault(k, v)
-				t1 = time.Now()
-			case kSetNoExpire:
-				st.call = fmt.Sprintf("SetNoExpire(%d,%d)", k, v)
-				st.op = fmt.Sprintf("OSet %d %d (-1)", k, v)
-				t0 = time.Now()
-				c.SetNoExpire(k, v)
-				t1 = time.Now()
-			case kSetIfAbsent:
-				st.call = fmt.Sprintf("SetIfAbsent(%d,%d,%s)", k, v, durStr(op.ttl))
-				st.op = fmt.Sprintf("OSetIfAbsent %d %d %s", k, v, vhlib.Z(int64(op.ttl)))
-				t0 = time.Now()
-				okb = c.SetIfAbsent(k, v, op.ttl)
-				t1 = time.Now()
-			case kReplace:
-				st.call = fmt.Sprintf("Replace(%d,%d,%s)", k, v, durStr(op.ttl))
-				st.op = fmt.Sprintf("OReplace %d %d %s", k, v, vhlib.Z(int64(op.ttl)))
-				t0 = time.Now()
-				okb = c.Replace(k, v, op.ttl)
-				t1 = time.Now()
-			case kDelete:
-				st.call = fmt.Sprintf("Delete(%d)", k)
-				st.op = fmt.Sprintf("ODelete %d", k)
-				t0 = time.Now()
-				c.Delete(k)
-				t1 = time.Now()
-			case kGet:
-				st.call = fmt.Sprintf("Get(%d)", k)
-				st.op = fmt.Sprintf("OGet %d", k)
-				t0 = time.Now()
-				gv, hit = c.Get(k)
-				t1 = time.Now()
-			case kGetWithExpire:
-				st.call = fmt.Sprintf("GetWithExpire(%d)", k)
-				st.op = fmt.Sprintf("OGet %d", k)
-				var tt time.Time
-				t0 = time.Now()
-				gv, tt, hit = c.GetWithExpire(k)
-				t1 = time.Now()
-				if hit && !tt.IsZero() {
-					gd = tt.UnixNano()
-				}
-			case kCount:
-				st.call = "Count()"
-				st.op = "OCount"
-				t0 = time.Now()
-				cnt = c.Count()
-				t1 = time.Now()
-			case kClear:
-				st.call = "Clear()"
-				st.op = "OClear"
-				t0 = time.Now()
-				c.Clear()
-				t1 = time.Now()
-			case kSweep:
-				st.call = "VerifSweep()"
-				st.op = "OSweep"
-				t0 = time.Now()
-				c.VerifSweep()
-				t1 = time.Now()
-			case kExport:
-				st.call = "Export()"
-				st.op = "OExport"
-				t0 = time.Now()
-				bl, err := c.Export()
-				t1 = time.Now()
-				if err != nil {
-					panic(err)
-				}
-				blob = bl
-				e, err := parseBlob(bl)
-				if err != nil {
-					panic(err)
-				}
-				exp = e
-			case kRestore, kLoad:
-				use := blob
-				if op.synth != nil || use == nil {
-					nowNs := time.Now().UnixNano()
-					raw := map[string]ent{}
-					for _, s := range op.synth {
-						e := ent{Value: s.v}
-						if s.timed {
-							e.Expire = nowNs + int64(s.rel)
-						}
-						raw[strconv.Itoa(s.k)] = e
-					}
-					use, _ = json.Marshal(raw)
-				}
-				d, err := parseBlob(use)
-				if err != nil {
-					panic(err)
-				}
-				data = d
-				if op.kind == kLoad {
-					st.call = fmt.Sprintf("Load(%s)", string(use))
-					st.op = "OLoad " + coqMap(data, tBase)
-					t0 = time.Now()
-					err = c.Load(use)
-					t1 = time.Now()
-				} else {
-					st.call = fmt.Sprintf("Clear();Load(%s)", string(use))
-					st.op = "ORestore " + coqMap(data, tBase)
-					t0 = time.Now()
-					c.Clear()
-					err = c.Load(use)
-					t1 = time.Now()
-				}
-				if err != nil {
-					panic(err)
-				}
-			}
-		})
-		if panicked {
-			res.dropped = fmt.Sprintf("PANIC in %s: %v", st.call, pv)
-			return
-		}
-		mem0, vis0 := c.VerifDump()
-		if !clockOK(t0) || !clockOK(t1) {
-			res.dropped = "clock"
-			return
-		}
-		st.a, st.b = t0.UnixNano(), t1.UnixNano()
-		st.mem = map[int]ent{}
-		for kk, e := range mem0 {
-			st.mem[kk] = ent{Value: e.Value, Expire: e.Expire}
-		}
-		for _, n := range vis0 {
-			st.visK = append(st.visK, n.Key)
-			st.visS = append(st.visS, int64(n.Score))
-		}
-		// ----- observed output and witness instant -----
-		st.tw = st.a
-		inWin := func(d int64) bool { return d != 0 && d >= st.a-gran && d <= st.b+gran }
-		storeTW := func() {
-			if x, timed := effTTL(pl.def, op.ttl); timed {
-				if e, ok := st.mem[k]; ok && e.Value == v {
-					st.tw = e.Expire - int64(x) // the instant newIterator read
-				}
-			}
-		}
-		switch op.kind {
-		case kSetNoExpire, kDelete, kClear:
-			st.out = "OutUnit"
-		case kSet:
-			st.out = "OutUnit"
-			storeTW()
-		case kSetDefault:
-			st.out = "OutUnit"
-			if pl.def > 0 {
-				if e, ok := st.mem[k]; ok && e.Value == v {
-					st.tw = e.Expire - int64(pl.def)
-				}
-			}
-		case kSetIfAbsent:
-			st.out = "OutBool " + vhlib.Bool(okb)
-			if okb {
-				storeTW()
-			}
-		case kReplace:
-			st.out = "OutBool " + vhlib.Bool(okb)
-			if okb {
-				storeTW()
-			} else {
-				st.tw = st.b
-			}
-			if e, ok := prevMem[k]; ok && inWin(e.Expire) {
-				st.window = true
-			}
-		case kGet, kGetWithExpire:
-			if hit {
-				if op.kind == kGet { // Get shows no deadline: take the stored field (same field GetWithExpire shows)
-					gd = st.mem[k].Expire
-				}
-				st.out = "OutGet " + vhlib.Opt(true, vhlib.Pair(vhlib.Z(int64(gv)), vhlib.Z(rel(gd, tBase))))
-			} else {
-				st.out = "OutGet None"
-				st.tw = st.b
-			}
-			if e, ok := prevMem[k]; ok && inWin(e.Expire) {
-				st.window = true
-			}
-		case kCount:
-			st.out = "OutCount " + vhlib.Nat(cnt)
-		case kSweep:
-			st.out = "OutUnit"
-			// any instant separating the collected deadlines from the kept ones
-			now := map[int]bool{}
-			for _, kk := range st.visK {
-				now[kk] = true
-			}
-			var maxRemoved int64
-			for _, kk := range prevVisK {
-				if !now[kk] {
-					if e, ok := prevMem[kk]; ok && e.Expire > maxRemoved {
-						maxRemoved = e.Expire
-					}
-				}
-			}
-			if maxRemoved > 0 {
-				st.tw = clamp(maxRemoved, st.a, st.b)
-			}
-			for _, e := range prevMem {
-				if inWin(e.Expire) {
-					st.window = true
-				}
-			}
-		case kExport:
-			st.out = "OutExport " + coqMap(exp, tBase)
-		case kRestore, kLoad:
-			st.out = "OutUnit"
-			var maxSkipped int64
-			minKept := int64(1) << 62
-			for kk, e := range data {
-				if e.Expire <= 0 {
-					continue
-				}
-				if inWin(e.Expire) {
-					st.window = true
-				}
-				if op.kind == kLoad && prevMem[kk] == e {
-					continue // the cache already held exactly this entry: loaded or not makes no difference
-				}
-				if got, kept := st.mem[kk]; kept && got == e {
-					if e.Expire < minKept {
-						minKept = e.Expire
-					}
-				} else if e.Expire > maxSkipped {
-					maxSkipped = e.Expire
-				}
-			}
-			if maxSkipped > 0 {
-				st.tw = clamp(maxSkipped+1, st.a, st.b)
-			}
-			if maxSkipped >= minKept && maxSkipped >= st.a && minKept <= st.b {
-				// Unmarshal reads the clock once per entry; two deadlines inside the bracket were judged at
-				// different instants: no single instant reproduces it. Not a property matter: drop the trace.
-				res.dropped = "load-multi-instant"
-				return
-			}
-		}
-		for _, e := range st.mem {
-			if e.Expire == tBase {
-				res.dropped = "deadline-equals-t0"
-				return
-			}
-		}
-		for _, e := range data {
-			if e.Expire == tBase {
-				res.dropped = "deadline-equals-t0"
-				return
-			}
-		}
-		res.steps = append(res.steps, st)
-		prevMem, prevVisK = st.mem, st.visK
-	}
-	return
-}
-
-func (s stepRec) coq(t0 int64) string {
-	vis := make([]string, len(s.visK))
-	for i := range s.visK {
-		vis[i] = vhlib.Pair(vhlib.Z(s.visS[i]-t0), vhlib.Z(int64(s.visK[i])))
-	}
-	return fmt.Sprintf("{| s_op := %s; s_a := %s; s_b := %s; s_out := %s; s_tw := %s; s_mem := %s; s_vis := %s |}",
-		s.op, vhlib.Z(s.a-t0), vhlib.Z(s.b-s.a), s.out, vhlib.Z(s.tw-s.a), coqMap(s.mem, t0), vhlib.List(vis))
-}
-
-func (s stepRec) describe(base int64) string {
-	return fmt.Sprintf("%s @[%d,%d] -> %s ; tw=%d mem=%s vis=%v/%v", s.call, s.a-base, s.b-base, s.out, s.tw-base, coqMap(s.mem, base), s.visK, s.visS)
-}
-
-// ---------- real sentinel ticker ----------
-
-type tickerRes struct {
-	expected, observed, lost int
-	detail                   map[string]interface{}
-}
-
-func runTicker(r *vhlib.Rng) tickerRes {
-	const interval = 10 * ms
-	def := defNonPositive[r.Intn(len(defNonPositive))]
-	c := bcache.New[int, int](bcomparator.IntComparator(), bcache.SetDefaultExpire[int, int](def),
-		bcache.SetInternal[int, int](interval), bcache.SetCapture[int, int](func(int, int) {}))
-	live := map[int]int{}
-	n := r.Range(6, 14)
-	short := 0
-	var calls []string
-	for k := 0; k < n; k++ {
-		v := 1000 + k
-		switch r.Intn(7) {
-		case 6: // default TTL kind on a cache without a positive default: stored without expiry
-			switch r.Intn(3) {
-			case 0:
-				c.Set(k, v, bcache.DefaultExpire)
-			case 1:
-				c.SetDefault(k, v)
-			case 2:
-				c.SetIfAbsent(k, v, bcache.DefaultExpire)
-			}
-			live[k] = v
-			calls = append(calls, fmt.Sprintf("Set/SetDefault/SetIfAbsent(%d,%d,DefaultExpire) on default %s", k, v, durStr(def)))
-		case 5: // timed, then an entry without expiry LOADED over it
-			c.Set(k, v, 40*ms)
-			if err := c.Load([]byte(fmt.Sprintf(`{"%d":{"Value":%d,"Expire":0}}`, k, v+700))); err != nil {
-				panic(err)
-			}
-			live[k] = v + 700
-			calls = append(calls, fmt.Sprintf("Set(%d,%d,40ms);Load({%d:{%d,untimed}})", k, v, k, v+700))
-		case 0, 1:
-			c.Set(k, v, 40*ms)
-			short++
-			calls = append(calls, fmt.Sprintf("Set(%d,%d,40ms)", k, v))
-		case 2:
-			c.SetNoExpire(k, v)
-			live[k] = v
-			calls = append(calls, fmt.Sprintf("SetNoExpire(%d,%d)", k, v))
-		case 3:
-			c.Set(k, v, 10*time.Second)
-			live[k] = v
-			calls = append(calls, fmt.Sprintf("Set(%d,%d,10s)", k, v))
-		case 4: // timed, then stored again without expiry
-			c.Set(k, v, 40*ms)
-			c.SetNoExpire(k, v+500)
-			live[k] = v + 500
-			calls = append(calls, fmt.Sprintf("Set(%d,%d,40ms);SetNoExpire(%d,%d)", k, v, k, v+500))
-		}
-	}
-	stored := time.Now()
-	for time.Since(stored) < 45*ms {
-		time.Sleep(5 * ms)
-	}
-	// allowance: 10 intervals of a reference ticker of our own; a tick that arrives late (starvation) does not count
-	tk := time.NewTicker(interval)
-	good, total := 0, 0
-	prev := time.Now()
-	for good < 10 && total < 200 {
-		t := <-tk.C
-		total++
-		if t.Sub(prev) < 2*interval+5*ms {
-			good++
-		}
-		prev = t
-	}
-	tk.Stop()
-	res := tickerRes{expected: len(live)}
-	res.observed = c.Count()
-	for k, v := range live {
-		if got, ok := c.Get(k); !ok || got != v {
-			res.lost++
-		}
-	}
-	res.detail = map[string]interface{}{"interval": "10ms", "calls": calls, "short_lived": short, "expected_count": res.expected,
-		"observed_count": res.observed, "live_entries_missing": res.lost, "reference_ticks": total}
-	return res
-}
-
-func main() {
-	o := vhlib.ParseOpts()
-	rng := vhlib.NewRng(o.Seed)
-	w := vhlib.NewWriter(o.Out, "From VF Require Import Common.Base C12.Model C12.Check.\nLocal Open Scope Z_scope.", "case", "mismatches", 150)
-
-	nTraces, nTick, par := 2400, 32, 64
-	if o.Thorough() {
-		nTraces, nTick = 16000, 200
-	}
-	if o.Extra != "" {
-		if n, err := strconv.Atoi(o.Extra); err == nil {
-			nTraces = n
-		}
-	}
-	plans := make([]plan, nTraces)
-	for i := range plans {
-		plans[i] = makePlan(rng.Fork(), i)
-	}
-	results := make([]traceRes, nTraces)
-	var wg sync.WaitGroup
-	next := make(chan int)
-	for g := 0; g < par; g++ {
-		wg.Add(1)
-		go func() {
-			defer wg.Done()
-			for i := range next {
-				results[i] = runTrace(plans[i])
-			}
-		}()
-	}
-	for i := range plans {
-		next <- i
-	}
-	close(next)
-	wg.Wait()
-
-	dropped := map[string]int{}
-	windowSteps, totalSteps, decidedTraces, kept := 0, 0, 0, 0
-	for i, r := range results {
-		if r.dropped != "" {
-			if strings.HasPrefix(r.dropped, "PANIC") {
-				w.Violation(plans[i].profile, "panic", r.dropped)
-				dropped["panic"]++
-			} else {
-				dropped[r.dropped]++
-			}
-			continue
-		}
-		kept++
-		steps := make([]string, len(r.steps))
-		labels := make([]string, len(r.steps))
-		desc := make([]string, len(r.steps))
-		base := r.t0
-		timed, dec := false, true
-		for j, s := range r.steps {
-			steps[j] = s.coq(r.t0)
-			labels[j] = s.label
-			desc[j] = s.describe(base)
-			for _, e := range s.mem {
-				if e.Expire != 0 {
-					timed = true
-				}
-			}
-			totalSteps++
-			if s.window {
-				windowSteps++
-				dec = false
-			}
-		}
-		if dec {
-			decidedTraces++
-		}
-		term := fmt.Sprintf("CTrace %s %d %d %s", vhlib.Z(int64(plans[i].def)), gran, r.t0, vhlib.List(steps))
-		w.Case(term, plans[i].profile, timed && len(r.steps) >= 8, labels,
-			map[string]interface{}{"profile": plans[i].profile, "default_expire": plans[i].def.String(),
-				"config":      fmt.Sprintf("SetDefaultExpire option given: %v; capture kind %d", !plans[i].noDefOpt, plans[i].capture),
-				"t0_unixnano": base, "steps": desc})
-	}
-	// real ticker
-	tres := make([]tickerRes, nTick)
-	var wg2 sync.WaitGroup
-	for i := 0; i < nTick; i++ {
-		wg2.Add(1)
-		tr := rng.Fork()
-		go func(i int) {
-			defer wg2.Done()
-			tres[i] = runTicker(tr)
-		}(i)
-	}
-	wg2.Wait()
-	for _, t := range tres {
-		w.Case(fmt.Sprintf("CTicker %s %s %s", vhlib.Nat(t.expected), vhlib.Nat(t.observed), vhlib.Nat(t.lost)),
-			"ticker", true, []string{"Count-after-10-intervals"}, t.detail)
-	}
-	defDist := map[string]int{}
-	for _, pl := range plans {
-		key := durStr(pl.def)
-		if pl.def == 0 {
-			key = "0"
-			if pl.noDefOpt {
-				key = "0 (no option)"
-			}
-		}
-		defDist[key]++
-	}
-	w.Notes["default_expire_of_traces"] = defDist
-	w.Notes["traces_run"] = nTraces
-	w.Notes["traces_kept"] = kept
-	w.Notes["traces_dropped"] = dropped
-	w.Notes["steps_total"] = totalSteps
-	w.Notes["steps_with_a_deadline_inside_the_call_bracket"] = windowSteps
-	w.Notes["traces_with_no_deadline_inside_any_bracket(decided)"] = decidedTraces
-	w.Close(o, "one case = one trace of 8..25 API calls on a fresh cache (keys 0..3, every stored value unique), each call bracketed by two wall-clock readings (validated against the monotonic clock; traces with a clock step are dropped and counted in notes) with the member map and deadline index dumped after it; distinct = distinct case terms (always, since instants differ); non-trivial = at least 8 steps and some timed entry was stored; plus one case per real-ticker run (10 ms sentinel)")
-}
+func main() { bcachetrace.MainC12() }
